@@ -200,7 +200,11 @@ def pod(ns, name, eds_name=None, rs_name=None, hash_value=None, node=None, affin
         md["deletionTimestamp"] = ts(deleting)
         if grace is not None:
             md["deletionGracePeriodSeconds"] = grace
-    if ds_owner:
+    if isinstance(ds_owner, tuple):
+        okind, oname, octrl = ds_owner          # an owner of any kind (a same-named StatefulSet, a non-controller reference, ...)
+        md["ownerReferences"] = [{"apiVersion": "apps/v1", "kind": okind, "name": oname, "uid": "uid-%s-%s" % (okind.lower(), oname),
+                                  "controller": octrl}]
+    elif ds_owner:
         md["ownerReferences"] = [{"apiVersion": "apps/v1", "kind": "DaemonSet", "name": ds_owner, "uid": "uid-ds-" + ds_owner,
                                   "controller": True}]
     elif rs_name:
